@@ -13,13 +13,13 @@ ALPHA = "ab1.-_+=:#@"
 
 def name_cases(r, quick):
     cases = []
-    for cluster in (None, "vn", "c-1.x_y"):
+    for cluster in (None, "vn", "c-1.x_y", ".hid_1"):
         for fn in ("fa", "meth"):
             for v in VERSIONS:
                 cases.append({"cluster": cluster, "fn": fn, "version": v})
     for _ in range(60 if quick else 4000):
         v = "".join(r.choice(ALPHA) for _ in range(r.randint(1, 6)))
-        cases.append({"cluster": r.choice([None, "vn", "c-1.x_y"]), "fn": r.choice(["fa", "meth"]), "version": v})
+        cases.append({"cluster": r.choice([None, "vn", "c-1.x_y", ".hid_1"]), "fn": r.choice(["fa", "meth"]), "version": v})
     return cases
 
 
